@@ -13,6 +13,7 @@ import (
 	"fmt"
 	"os"
 	"path/filepath"
+	"regexp"
 	"runtime/debug"
 	"sort"
 	"strconv"
@@ -46,6 +47,8 @@ func repoDir() string {
 // ---------------------------------------------------------------- natives
 
 var progOut bytes.Buffer
+
+var addrRE = regexp.MustCompile(`0x[0-9a-f]{6,}`)
 
 var c30Packages = native.Packages{
 	"fmt": native.Package{Name: "fmt", Declarations: native.Declarations{
@@ -193,7 +196,9 @@ func runOnce(r buildResult) string {
 	if status == "timeout" {
 		return "timeout"
 	}
-	h := sha256.Sum256([]byte(progOut.String() + "\x00" + printed.String() + "\x00" + out.String()))
+	// println of values that are not of a basic type prints addresses, as gc does
+	all := addrRE.ReplaceAllString(progOut.String()+"\x00"+printed.String()+"\x00"+out.String(), "0xADDR")
+	h := sha256.Sum256([]byte(all))
 	return fmt.Sprintf("%s %x len=%d", status, h[:6], progOut.Len()+printed.Len()+out.Len())
 }
 
@@ -405,6 +410,7 @@ func dirExists(p string) bool { fi, err := os.Stat(p); return err == nil && fi.I
 func c30Sources(c *Ctx) []srcSet {
 	var out []srcSet
 	out = append(out, errorSources(c)...)
+	out = append(out, multiPackageSources(c)...)
 	ng := 6 + c.N/40
 	for i := 0; i < ng; i++ {
 		out = append(out, genProgram(c, i), genTemplate(c, i))
@@ -446,153 +452,3 @@ func firstDiff(a, b string) string {
 	return fmt.Sprintf("lengths %d / %d lines", len(la), len(lb))
 }
 
-func init() {
-	// child: one line per source: id, hash of the build result, run behaviour
-	Register("C30-child", func(c *Ctx) {
-		start := 0
-		if v := os.Getenv("C30_START"); v != "" {
-			start, _ = strconv.Atoi(v)
-		}
-		for i, s := range c30Sources(c) {
-			if i < start {
-				continue
-			}
-			fmt.Fprintf(os.Stdout, "BEGIN\t%d\n", i)
-			r := buildOnce(s)
-			run := runOnce(r)
-			fmt.Fprintf(os.Stdout, "RES\t%d\t%s\t%s\n", i, hashStr(r.key()), run)
-			if os.Getenv("C30_DEBUG") != "" {
-				fmt.Fprintf(os.Stderr, "%s\t%s\t%.150q\n", s.ID, run, r.Err)
-			}
-		}
-		os.Stdout.Sync()
-	})
-
-	Register("C30-sweep", func(c *Ctx) {
-		srcs := c30Sources(c)
-		detail := func(s srcSet, why string) map[string]any {
-			return map[string]any{"id": s.ID, "kind": s.Kind, "main": s.Main, "files": s.Files, "why": why}
-		}
-		parent := make([]string, len(srcs))
-		shown := 0
-		for i, s := range srcs {
-			var first buildResult
-			bad := false
-			for k := 0; k < 8; k++ {
-				c.Count("evaluations")
-				r := buildOnce(s)
-				if k == 0 {
-					first = r
-					continue
-				}
-				if r.key() != first.key() && !bad {
-					bad = true
-					switch {
-					case r.Err != first.Err:
-						c.Fail("nondeterministic-build:error", detail(s, fmt.Sprintf("build errors differ: %q / %q", first.Err, r.Err)))
-					case r.UsedVars != first.UsedVars:
-						c.Fail("nondeterministic-build:usedvars", detail(s, fmt.Sprintf("UsedVars differ: %s / %s", first.UsedVars, r.UsedVars)))
-					default:
-						c.Fail("nondeterministic-build:disassembly", detail(s, "disassembly differs at "+firstDiff(first.Disasm, r.Disasm)))
-					}
-				}
-			}
-			parent[i] = hashStr(first.key())
-			if first.Err == "" {
-				c.Count("nontrivial")
-				c.Count("built:" + s.Kind)
-				if shown < 3 && strings.HasPrefix(s.ID, "gen-") {
-					shown++
-					c.Sample(map[string]any{"id": s.ID, "disassembly_bytes": len(first.Disasm), "usedvars": first.UsedVars})
-				}
-			} else {
-				c.Count("build-error:" + s.Kind)
-			}
-		}
-		// three fresh processes
-		children := make([][]struct{ build, run string }, 3)
-		chDone := make(chan int, 3)
-		for ch := 0; ch < 3; ch++ {
-			go func(ch int) {
-				children[ch] = runChild(c, len(srcs))
-				chDone <- ch
-			}(ch)
-		}
-		for ch := 0; ch < 3; ch++ {
-			<-chDone
-		}
-		for i, s := range srcs {
-			for ch := 0; ch < 3; ch++ {
-				c.Count("evaluations")
-				r := children[ch][i]
-				if r.build == "" {
-					continue // the child died on this source: counted below
-				}
-				if r.build != parent[i] {
-					c.Fail("nondeterministic-build:across-processes", detail(s, fmt.Sprintf("build result hash %s in a fresh process, %s in this one", r.build, parent[i])))
-					break
-				}
-				if ch > 0 && children[0][i].build != "" && r.run != children[0][i].run && !strings.HasPrefix(r.run, "timeout") && !strings.HasPrefix(children[0][i].run, "timeout") && !unorderedOutput(s) {
-					c.Fail("nondeterministic-run", detail(s, fmt.Sprintf("run behaviour differs between processes: %s / %s", children[0][i].run, r.run)))
-					break
-				}
-			}
-			if children[0][i].build == "" {
-				c.Count("child-died")
-			}
-		}
-	})
-}
-
-// unorderedOutput: programs whose output legitimately depends on map iteration, scheduling or time
-func unorderedOutput(s srcSet) bool {
-	for _, src := range s.Files {
-		if strings.Contains(src, "select") || strings.Contains(src, "go func") || strings.Contains(src, "time.") || strings.Contains(src, "rand.") {
-			return true
-		}
-		if s.Kind == "program" && strings.HasPrefix(s.ID, "corpus:") && strings.Contains(src, "range") && strings.Contains(src, "map[") {
-			return true
-		}
-	}
-	return false
-}
-
-// runChild runs `C30-child` over all sources, restarting after the source on which a child died.
-func runChild(c *Ctx, n int) []struct{ build, run string } {
-	res := make([]struct{ build, run string }, n)
-	self, err := os.Executable()
-	if err != nil {
-		return res
-	}
-	start := 0
-	for attempts := 0; start < n && attempts < 50; attempts++ {
-		args := []string{"C30-child", "-seed", strconv.FormatInt(c.Seed, 10), "-n", strconv.Itoa(c.N), "-tier", c.Tier}
-		if c.Arg != "" {
-			args = append(args, "-arg", c.Arg)
-		}
-		cmd := execCommand(self, args...)
-		cmd.Env = append(os.Environ(), "C30_START="+strconv.Itoa(start))
-		out, _ := runWithTimeout(cmd, 10*time.Minute)
-		last := start - 1
-		for _, line := range strings.Split(string(out), "\n") {
-			f := strings.Split(line, "\t")
-			switch {
-			case len(f) == 2 && f[0] == "BEGIN":
-				last, _ = strconv.Atoi(f[1])
-			case len(f) == 4 && f[0] == "RES":
-				i, _ := strconv.Atoi(f[1])
-				if i >= 0 && i < n {
-					res[i].build, res[i].run = f[2], f[3]
-				}
-			}
-		}
-		if last+1 <= start {
-			start++
-		} else if res[last].build != "" {
-			start = last + 1
-		} else {
-			start = last + 1 // died on `last`
-		}
-	}
-	return res
-}
